@@ -59,12 +59,15 @@ theorem contains_eq (hash : β → Nat) (d : HRec β) (m : HImage β) (v : β) :
 theorem add_node_eq (hash : β → Nat) (d : HRec β) (m : HImage β) (v : β) :
     add_node hash d m v = HImp.addNode d m v := by
   simp only [add_node, HImp.addNode]
+  -- (the capacity test may be an `if .. { panic! }` or an `assert!` of its negation)
   by_cases h1 : m.hdr.flh = m.hdr.seq
-  · simp only [h1, if_true]
-    split
-    · rfl
-    · simp only [bind, Option.bind, pure, HImp.wr_wr]
-      rfl
+  · simp only [h1, if_true, eq_self]
+    by_cases h2 : m.hdr.seq - 1 = m.hdr.cap
+    · simp only [h2, ne_eq, not_true_eq_false, not_false_eq_true, Decidable.not_not, if_true, if_false, eq_self]
+      first | done | rfl
+    · simp only [h2, ne_eq, not_true_eq_false, not_false_eq_true, Decidable.not_not, if_true, if_false, bind, Option.bind,
+        pure, HImp.wr_wr]
+      first | done | rfl
   · simp only [h1, bind, Option.bind, pure, if_false, HImp.wr_wr]
     rfl
 
